@@ -84,19 +84,19 @@ func asyncSelection(mode int) string {
 }
 
 // addAsyncFields adds `qa` (query), `ma` (mutation) and `sa` (subscription) to the harness schema.
-func addAsyncFields(cfg *apifu.Config, w *world, record func(gen int, kind string)) {
+func addAsyncFields(cfg *apifu.Config, w *world, record func(ctx graphql.FieldContext, gen int, kind string)) {
 	args := map[string]*graphql.InputValueDefinition{"tag": {Type: graphql.IntType}, "mode": {Type: graphql.IntType}}
 	cfg.AddNamedType(asyncValueType)
 	cfg.AddQueryField("qa", &graphql.FieldDefinition{Type: asyncValueType, Arguments: args,
 		Resolve: func(ctx graphql.FieldContext) (interface{}, error) {
 			t := intArg(ctx, "tag")
-			record(t, "query")
+			record(ctx, t, "query")
 			return newAsyncValue(t, intArg(ctx, "mode")), nil
 		}})
 	cfg.AddMutation("ma", &graphql.FieldDefinition{Type: asyncValueType, Arguments: args,
 		Resolve: func(ctx graphql.FieldContext) (interface{}, error) {
 			t := intArg(ctx, "tag")
-			record(t, "mutation")
+			record(ctx, t, "mutation")
 			return newAsyncValue(t, intArg(ctx, "mode")), nil
 		}})
 	cfg.AddSubscription("sa", &graphql.FieldDefinition{Type: asyncValueType, Arguments: args,
@@ -104,7 +104,7 @@ func addAsyncFields(cfg *apifu.Config, w *world, record func(gen int, kind strin
 			if ctx.IsSubscribe {
 				t := intArg(ctx, "tag")
 				src := &source{gen: t, ch: make(chan int), stoppedCh: make(chan struct{})}
-				if l := w.cur.Load(); l != nil {
+				if l := w.liveFor(ctx.Context); l != nil {
 					l.mu.Lock()
 					src.slow = l.slow
 					l.sources[t] = src
